@@ -159,20 +159,22 @@ PROPS["C01"] = dict(
     rule=SEQ_RULE, trivial_tags=SEQ_TRIVIAL,
 )
 PROPS["C02"] = dict(
-    modules=["DdoModel.Props.C02"],
+    modules=["DdoModel.Props.C02", "DdoModel.Props.C03b", "DdoModel.Props.C01c"],
     theorems=["Ddo.C02.best_is_solution", "Ddo.C02.value_iff_solution", "Ddo.C02.completion_value_eq_lb", "Ddo.C02.ub_eq_value_uninterrupted",
-              "Ddo.C05.cutoff_bounds_restricted", "Ddo.C05.cutoff_bounds_relaxed"],
-    stated_not_proved=["parallel part (value and solution written in one critical section): see C03", "feasibility of the diagram's own best exact solution (CompileOk.sound) on Mdd.lean: proof in progress (C07)"],
+              "Ddo.C05.cutoff_bounds_restricted", "Ddo.C05.cutoff_bounds_relaxed",
+              "Ddo.C03b.sys_solution_feasible", "Ddo.C03b.sys_final", "Ddo.C01.compileOk_restricted", "Ddo.C01.compileOk_relaxed"],
+    stated_not_proved=["CompileOk.sound for the 'may' resolution of the exact-best-path tie of a relaxed diagram and for compilations with a cache / dominance rule: evaluated by solution replay (phi)"],
     level_text="Sequential solver: at every point of every run, also after a cutoff at any poll, the stored solution is a feasible solution whose value is the lower bound (invariant over maybe_update_best under the diagram contract), a value is present iff a solution is, equals the lower bound and the Completion value, and after an uninterrupted run the upper bound equals it. phi replays every reported solution through the model's transition and cost functions (default-completed replay for pooled diagrams) on every explored run, sequential and parallel.",
-    level_note="Partial: the parallel part and the diagram-level feasibility are not yet theorems; both are evaluated by phi (solution replay) on every explored run.",
+    level_note="Parallel solver: sys_solution_feasible - in every reachable state of the concrete parallel model (every interleaving, also after cutoffs and worker panics) the stored solution is a feasible solution of value best_lb (value and solution are written in the same critical section), and sys_final describes what maximize() returns. The diagram-level feasibility the solver theorems assume (CompileOk.sound) is discharged from the diagram model for restricted compilations and for the must-resolution of relaxed ones in isolation (compileOk_restricted / compileOk_relaxed). All reported solutions are also replayed (phi) on every explored run.",
     engines=SEQ_ENGINES + [dict(name="seqcut")], trusted_base=SEQ_TB,
     assumptions=["diagram contract CompileOk.sound (C06 / C07)"],
     rule=SEQ_RULE, trivial_tags=SEQ_TRIVIAL + ["many_polls"],
 )
 PROPS["C05"] = dict(
-    modules=["DdoModel.Props.C05", "DdoModel.Props.C01b"],
+    modules=["DdoModel.Props.C05", "DdoModel.Props.C01b", "DdoModel.Props.C03b"],
     theorems=["Ddo.C05.bounds_at_pop", "Ddo.C05.update_le_ub", "Ddo.C05.cutoff_bounds_restricted", "Ddo.C05.cutoff_bounds_relaxed", "Ddo.C05.aborted_not_exact",
-              "Ddo.C01b.process_cutoff_dedup_irrel", "Ddo.C01b.cutoff_bounds_restricted_any", "Ddo.C01b.cutoff_bounds_relaxed_any"],
+              "Ddo.C01b.process_cutoff_dedup_irrel", "Ddo.C01b.cutoff_bounds_restricted_any", "Ddo.C01b.cutoff_bounds_relaxed_any",
+              "Ddo.C03b.sys_cutoff_bounds", "Ddo.C03b.sys_cutoff_bounds_final", "Ddo.C03b.sys_final", "Ddo.C03b.d4b_witness", "Ddo.C03b.d4b_fixed"],
     stated_not_proved=["parallel part (par_cutoff_bounds): see C03 / C04 - not yet modelled"],
     level_text="Sequential part: for every instance and every poll index at which the cutoff fires (during the restricted or during the relaxed compilation of the node in hand) the aborted state satisfies best_lb <= optimum <= best_ub, its solution is feasible with value best_lb, and exactness is not claimed; proved from the coverage invariant, the max-pop order of the fringe and the parent-capped bounds. Tied to the code by tape validation of interrupted runs and by the seqcut engine (every k = 1..K+1).",
     level_note="Partial: the parallel solver's abort path is not covered yet (planned with the parallel model, where the design-time probes found a defect, D4).",
@@ -181,11 +183,12 @@ PROPS["C05"] = dict(
     rule=SEQ_RULE, trivial_tags=SEQ_TRIVIAL + ["many_polls"],
 )
 PROPS["C14"] = dict(
-    modules=["DdoModel.Props.C02"],
-    theorems=["Ddo.C02.set_primal_strict", "Ddo.C02.from_primal_optimal", "Ddo.C01.process_inv", "Ddo.C01.complete_optimal"],
-    stated_not_proved=["parallel version"],
+    modules=["DdoModel.Props.C02", "DdoModel.Props.C03b"],
+    theorems=["Ddo.C02.set_primal_strict", "Ddo.C02.from_primal_optimal", "Ddo.C01.process_inv", "Ddo.C01.complete_optimal",
+              "Ddo.C03b.sys_inv_init_primal", "Ddo.C03b.sys_primal", "Ddo.C03b.sys_primal_any"],
+    stated_not_proved=[],
     level_text="set_primal replaces the incumbent exactly when the new value is strictly greater (proved); a run started from any primal that belongs to a feasible solution satisfies the coverage invariant initially, hence (process_inv, complete_optimal) ends exact with max(primal, optimum). Tape validation covers runs with a primal taken from a random feasible solution (often equal to the optimum).",
-    level_note="Partial: sequential model only; same hypotheses as C01.",
+    level_note="Parallel solver: sys_primal - started from a feasible primal of value v the concrete parallel model ends, in every interleaving, with best_lb = max(v, optimum) and a feasible solution of that value; sys_primal_any: the same value for a primal the caller did not verify (the stored solution is then genuine unless it is the caller's own). Same contract hypotheses as C01 / C03.",
     engines=SEQ_ENGINES, trusted_base=SEQ_TB,
     assumptions=["as C01"], rule=SEQ_RULE + "; after the feasible primal, an equal-valued and a smaller primal with marker solutions are supplied too: they must not replace it", trivial_tags=SEQ_TRIVIAL,
 )
@@ -289,11 +292,12 @@ PAR_ENGINES = [dict(name="par", label="par", args=[]), dict(name="par", label="p
                dict(name="par", label="par_cache", args=["--focus-cache"])]
 
 PROPS["C04"] = dict(
-    modules=["DdoModel.Props.C04"],
+    modules=["DdoModel.Props.C04", "DdoModel.Props.C03b"],
     theorems=["Ddo.C04.par_ongoing_inv", "Ddo.C04.par_reachable_inv", "Ddo.C04.par_no_crash", "Ddo.C04.par_no_stuck", "Ddo.C04.par_complete_only_when_closed",
               "Ddo.C04.initial_inv", "Ddo.C04.maximize_never_stuck", "Ddo.ParSync.stepAt_sound", "Ddo.ParSync.stepOrStutter_sound", "Ddo.ParSync.invB_iff",
-              "Ddo.ParSync.d3_step1", "Ddo.ParSync.d3_step2", "Ddo.ParSync.s2_stuck"],
-    stated_not_proved=["Ddo.C04.par_terminates (finitely many steps: needs the data-level progress of C08 (ii)); non-termination is watched by the scheduler's step bound"],
+              "Ddo.ParSync.d3_step1", "Ddo.ParSync.d3_step2", "Ddo.ParSync.s2_stuck",
+              "Ddo.C03b.sys_terminates", "Ddo.C03b.sys_no_infinite_run", "Ddo.C03b.sys_progOk"],
+    stated_not_proved=["that the concrete model never takes its panic steps (gwCrash unreachable, notifyFinished defined) as a theorem on ParSys (it is one on the synchronisation skeleton: par_no_crash)"],
     level_text="For the synchronisation skeleton of the parallel solver (any number of workers, every interleaving, cutoff firing at any moment) it is proved by induction over the transition relation that: the ongoing counter equals the number of workers holding a node and a parked worker implies work in progress (inductive invariant); no worker crashes when upper_bounds has a cell per worker; in every state reachable from the initial state of maximize() in which some worker has not left its loop some step is enabled (no deadlock, no lost wake-up); Complete is answered only when nothing is open or in progress. The skeleton is tied to the code in two checked hops: the executable model of the parallel solver is validated trace by trace against the real solver under a controlled scheduler, and every section of the executable model is checked (by a recogniser proved sound) to be invisible to the skeleton or exactly one of its steps, with the invariant evaluated in every state. The D3 deadlock (with_nb_threads above the construction-time count) was found by the scheduler, is kept as a proved stuck-state witness, and is repaired (fix commit).",
     level_note="Partial: termination proper (well-foundedness) is not proved; it is bounded by the scheduler's step bound in every explored run. Mutex / condvar semantics are modelled (atomic sections, atomic release-and-park, notify_all wakes all), not verified; the model cannot exhibit weak-memory effects.",
     engines=PAR_ENGINES, trusted_base=PAR_TB,
@@ -301,11 +305,14 @@ PROPS["C04"] = dict(
     rule=PAR_RULE, trivial_tags=PAR_TRIVIAL,
 )
 PROPS["C03"] = dict(
-    modules=["DdoModel.Props.C03"],
-    theorems=["Ddo.C03.par_cover", "Ddo.C03.run_cover", "Ddo.C03.par_correct", "Ddo.ParCover.step_inv", "Ddo.ParCover.final"],
-    stated_not_proved=["Ddo.C03.ParRefinesCover (every section of the executable model is a step of the data-level system)", "runs with cache / dominance (C09 / C10)", "the infeasible case and the closed theorem with the diagram models plugged in"],
+    modules=["DdoModel.Props.C03", "DdoModel.Props.C03b"],
+    theorems=["Ddo.C03.par_cover", "Ddo.C03.run_cover", "Ddo.C03.par_correct", "Ddo.ParCover.step_inv", "Ddo.ParCover.final",
+              "Ddo.C03b.sys_inv_init", "Ddo.C03b.sys_inv_init_primal", "Ddo.C03b.sys_inv_step", "Ddo.C03b.sys_inv", "Ddo.C03b.sys_inv_seq", "Ddo.C03b.sys_complete_optimal",
+              "Ddo.C03b.sys_complete_value", "Ddo.C03b.sys_final", "Ddo.C03b.sys_terminates", "Ddo.C03b.sys_progOk", "Ddo.C03b.sys_no_infinite_run"],
+    stated_not_proved=["a machine-checked link between the trace validator of the driver (Engines/Par.lean, which replays the real solver's sections through the ParSolver.lean functions) and the step relation ParSys.StepG (which composes the same functions): by construction, not a theorem",
+                       "runs with cache / dominance (C09 / C10)", "the closed theorem with the diagram models plugged in (contracts are hypotheses okR / okX)"],
     level_text="For the data-level transition system of the parallel solver (fringe, incumbent, and the nodes held by workers together with the stale incumbent each worker read and what its compilations answered; any number of workers; every interleaving of the critical sections and lock-free compilations) the coverage invariant is proved to be preserved by every step of every worker in every order under exactly the diagram contracts, and to imply that the incumbent is the optimum once nothing is open or held. The executable model of the parallel solver, which has the same sections, is validated against the real solver trace by trace under the controlled scheduler (thread counts 1..4, random and PCT schedules, cache accesses as scheduling points), and phi compares every final value with the exact optimum.",
-    level_note="Partial: proved without cache, dominance and cutoff; the refinement executable model -> data-level system is by construction of the definitions, not a checked refinement; synchronisation (no deadlock) is C04. Atomicity of the critical sections is assumed (mutex semantics).",
+    level_note="Second stage (C03b, ParSys.lean + 2000 lines of proofs): the same results are theorems about the CONCRETE model - the shared record ParCrit with the ParSolver.lean functions themselves (popLoop, take, readLb, updateBest, enqueue, notifyFinished, abortSearch, complete) and one local state per worker, 15 step constructors composed as parallel.rs composes its sections, both fringes, cutoffs and worker panics included: the invariant SysInv (coverage; per worker: the stale incumbent it read is below the current one and its compilations meet the contracts for the incumbent it read; upper_bounds[i] is the bound of the node worker i holds; ongoing = number of holders) holds initially (with or without a primal) and along every run of every interleaving (sys_inv); when get_workload answers Complete the incumbent is the optimum with a feasible solution, none iff infeasible (sys_complete_optimal, sys_complete_value); what maximize() returns once all workers are done (sys_final); no infinite run at all, wait steps included, when cut-sets make progress (sys_terminates, sys_no_infinite_run: lexicographic measure on per-depth counts of open nodes). First stage: abstract data-level system; proved without cache and dominance; the link trace validator -> step relation is by construction of the definitions, not a checked refinement; synchronisation (no deadlock) is C04. Atomicity of the critical sections is assumed (mutex semantics).",
     engines=[PAR_ENGINES[0], PAR_ENGINES[3]], trusted_base=PAR_TB,
     assumptions=["diagram contracts (C06-C08)", "atomic critical sections"],
     rule=PAR_RULE, trivial_tags=PAR_TRIVIAL,
@@ -317,8 +324,8 @@ PROPS["C04"]["engines"] = PROPS["C04"]["engines"] + [dict(name="parstress")]
 PROPS["C14"]["engines"] = PROPS["C14"]["engines"] + [PAR_ENGINES[0]]
 PROPS["C14"]["trivial_tags"] = PROPS["C14"]["trivial_tags"] + PAR_TRIVIAL
 PROPS["C05"]["engines"] = PROPS["C05"]["engines"] + [PAR_ENGINES[2]]
-PROPS["C05"]["level_note"] = "Partial: the parallel abort path is covered by trace validation + phi (bounds at every cutoff point of every explored schedule; this is how defect D4 was found, repaired by fix 976f40b), not yet by a theorem (par_cutoff_bounds stated)."
-PROPS["C05"]["stated_not_proved"] = ["par_cutoff_bounds (parallel part): evaluated by phi on every scheduled run with a cutoff"]
+PROPS["C05"]["level_note"] = "Parallel part: sys_cutoff_bounds - in every reachable state of the concrete parallel model best_lb <= optimum, and after one or several abort_search calls (no crashed worker) optimum <= best_ub; sys_final: after an abort maximize() returns best_lb <= optimum <= best_ub, not exact, with a feasible solution of value best_lb. The proof attempt exposed that the first repair of D4 (976f40b) was incomplete: d4b_witness is a kernel-checked 20-step run of the system built with the intermediate formula (abortSearchD4) ending with best_ub = 10 < best_lb = optimum = 15; it was confirmed on the real code, repaired (5976a75), and d4b_fixed replays the schedule with the current formula. The tie to the code is trace validation + phi on every scheduled run with a cutoff (early and late cutoffs)."
+PROPS["C05"]["stated_not_proved"] = ["the bound with a crashed worker (NoCrash is necessary: a worker that panics inside get_workload holds a popped node whose bound never reached upper_bounds; the real code then re-raises the panic and reports nothing)"]
 
 PROPS["C08"] = dict(
     modules=["DdoModel.Props.C08", "DdoModel.Props.C08b"],
